@@ -24,6 +24,11 @@ pub struct Case {
     pub tol: f64,
     /// 0 valid, 1 ys shorter, 2 derivs shorter (Hermite), 3 ys longer
     pub mismatch: u8,
+    /// sampled class only: `vals` are the coefficients of the Newton form over the listed nodes (Hermite: every node
+    /// twice) instead of the monomial form, and the coefficient of order `.0` (>= 2) is scaled by 10^`.1` - data with
+    /// a small genuine higher-order divided difference
+    #[serde(default)]
+    pub newton: Option<(usize, f64)>,
 }
 
 trait Fld: nalgebra::ComplexField<RealField = f64> + num_traits::FromPrimitive + Copy {
@@ -119,7 +124,30 @@ pub fn run_case(case: &Case) -> Outcome {
     let dbound = if kind == 0 { n - 1 } else { 2 * n - 1 };
     // data
     let (ys, ds, truth): (Vec<C64>, Vec<C64>, Option<Vec<C64>>) = if case.sampled {
-        let cf: Vec<C64> = case.vals.iter().chain(case.dvals.iter()).take(dbound + 1).map(z).collect();
+        let mut cf: Vec<C64> = case.vals.iter().chain(case.dvals.iter()).take(dbound + 1).map(z).collect();
+        if let (Some((idx, e)), true) = (case.newton, dbound >= 2 && cf.len() == dbound + 1) {
+            o.label("newton-form-small-difference");
+            let idx = 2 + idx % (dbound - 1);
+            cf[idx] *= 10f64.powf(e);
+            // expand sum_k a_k prod_{l<k} (x - z_l) into ascending monomial coefficients
+            let zs: Vec<C64> = (0..dbound).map(|l| if kind == 0 { xs[l] } else { xs[l / 2] }).collect();
+            let mut mono = vec![c(0.0, 0.0); dbound + 1];
+            let mut basis = vec![c(1.0, 0.0)];
+            for k in 0..=dbound {
+                for (d, b) in basis.iter().enumerate() {
+                    mono[d] += cf[k] * b;
+                }
+                if k < dbound {
+                    let mut nb = vec![c(0.0, 0.0); basis.len() + 1];
+                    for (d, b) in basis.iter().enumerate() {
+                        nb[d + 1] += b;
+                        nb[d] -= zs[k] * b;
+                    }
+                    basis = nb;
+                }
+            }
+            cf = mono;
+        }
         let ys = xs.iter().map(|&x| horner_c(&cf, x)).collect();
         let dcf = deriv_coeffs_c(&cf, 1);
         let ds = xs.iter().map(|&x| horner_c(&dcf, x)).collect();
@@ -183,10 +211,46 @@ pub fn run_case(case: &Case) -> Outcome {
     // mix all nodes, so the absolute error at one node is governed by the global scale, not by the
     // scale at that node - which degenerates at x_i = 0)
     let sglob = xs.iter().map(|&x| eval2(&cf, x).2).fold(0.0, f64::max);
+    // What the tolerance may do. (i) The final pass zeroes coefficients below tol: only coefficients that come back as
+    // exact zeros can have been touched. (ii) lagrange's Neville intermediates carry the tolerance and lose a leading
+    // coefficient below it - their leading coefficients are the divided differences of the listed data (times a node
+    // gap before the division); hermite accumulates the Newton form in a polynomial with the default tolerance 1e-10,
+    // which drops the top Newton coefficient when it is below that. If no divided difference is near the tolerance,
+    // (ii) cannot have happened and the allowance covers (i) only.
+    let trim_possible = {
+        let zs: Vec<C64> = if kind == 0 { xs.clone() } else { xs.iter().flat_map(|&x| [x, x]).collect() };
+        let m = zs.len();
+        let mut col: Vec<C64> = if kind == 0 { ys.clone() } else { ys.iter().flat_map(|&y| [y, y]).collect() };
+        let mut smallest = col.iter().map(|v| v.norm()).fold(f64::INFINITY, f64::min);
+        let mut top = col[0];
+        for j in 1..m {
+            let mut next = vec![c(0.0, 0.0); m];
+            for i in j..m {
+                next[i] = if zs[i] == zs[i - j] { ds[i / 2] } else { (col[i] - col[i - 1]) / (zs[i] - zs[i - j]) };
+                let gap = (zs[i] - zs[i - j]).norm();
+                smallest = smallest.min(next[i].norm() * if gap > 0.0 { gap.min(1.0) } else { 1.0 });
+            }
+            col = next;
+            top = col[j];
+        }
+        if kind == 0 {
+            !(smallest >= 32.0 * tol)
+        } else {
+            !(top.norm() >= 4e-10)
+        }
+    };
+    if trim_possible {
+        o.label("intermediate-trim-possible");
+    }
     for i in 0..n {
         let (v, d, _) = eval2(&cf, xs[i]);
         let s = sglob;
-        let tolterm = 2.0 * tol * (0..=dbound).map(|k| xs[i].norm().powi(k as i32) * (k as f64 + 1.0)).sum::<f64>();
+        let teff = 2.0 * tol.max(if kind == 1 && trim_possible { 1e-10 } else { 0.0 });
+        let touched = |k: &usize| trim_possible || cf.get(*k).map_or(true, |a| a.re == 0.0 && a.im == 0.0);
+        let ax = xs[i].norm();
+        let tolterm = teff * (0..=dbound).filter(touched).map(|k| ax.powi(k as i32) * (k as f64 + 1.0)).sum::<f64>();
+        // derivative: a coefficient change of tol at order k moves p' by k |x|^(k-1) tol
+        let tolterm1 = tolterm + teff * (1..=dbound).filter(touched).map(|k| ax.powi(k as i32 - 1) * k as f64).sum::<f64>();
         let allow = tolterm + EPS * g * s.max(ys[i].norm()) + 1e-300;
         let r0 = (v - ys[i]).norm();
         max_res = max_res.max(r0);
@@ -203,10 +267,10 @@ pub fn run_case(case: &Case) -> Outcome {
         if kind == 1 {
             let r1 = (d - ds[i]).norm();
             max_res = max_res.max(r1);
-            let allow1 = tolterm + EPS * g * s.max(ds[i].norm()) + 1e-300;
+            let allow1 = tolterm1 + EPS * g * s.max(ds[i].norm()) + 1e-300;
             worst = worst.max(r1 / allow1);
             if accurate {
-                worst_round = worst_round.max((r1 - tolterm).max(0.0) / (EPS * g * s.max(ds[i].norm()) + 1e-300));
+                worst_round = worst_round.max((r1 - tolterm1).max(0.0) / (EPS * g * s.max(ds[i].norm()) + 1e-300));
             }
             if !(r1 <= allow1) {
                 return o.fail(format!("p'(x_{i}) = {d:e} but y'_{i} = {:e} (|diff| {r1:e} > {allow1:e})", ds[i]));
@@ -284,6 +348,16 @@ pub fn run_case(case: &Case) -> Outcome {
 fn nodes(complex: bool) -> BoxedStrategy<Vec<(f64, f64)>> {
     // cells of a 0.4 grid, jitter <= 0.1 per coordinate => separation >= 0.2
     let jit = || prop_oneof![Just(0.0), (-32i32..=32).prop_map(|k| k as f64 * 0.1 / 32.0), (0u64..1 << 40).prop_map(|k| (k as f64 / (1u64 << 40) as f64 - 0.5) * 0.2)];
+    // a ninth of the real designs: a monotonically listed grid of spacing 0.45 or 0.5 whose gaps are irregular by
+    // 10^[-13,-5] - nearly but not exactly equally spaced
+    let near_uniform = (3usize..=8, prop_oneof![Just(0.45), Just(0.5)], gen::fl(-13.0, -5.0), proptest::collection::vec(gen::fl(-1.0, 1.0), 8), any::<bool>())
+        .prop_map(|(n, h, e, j, rev)| {
+            let mut v: Vec<(f64, f64)> = (0..n).map(|k| (-h * (n - 1) as f64 / 2.0 + h * k as f64 + 10f64.powf(e) * j[k], 0.0)).collect();
+            if rev {
+                v.reverse();
+            }
+            v
+        });
     if complex {
         let mut cells = vec![];
         for i in -5i32..=5 {
@@ -299,7 +373,11 @@ fn nodes(complex: bool) -> BoxedStrategy<Vec<(f64, f64)>> {
             .boxed()
     } else {
         let cells: Vec<f64> = (-4i32..=4).map(|i| i as f64 * 0.45).collect();
-        (1usize..=8, Just(cells).prop_shuffle(), proptest::collection::vec(jit(), 8)).prop_map(|(n, cells, j)| (0..n).map(|k| (cells[k] + j[k], 0.0)).collect()).boxed()
+        prop_oneof![
+            8 => (1usize..=8, Just(cells).prop_shuffle(), proptest::collection::vec(jit(), 8)).prop_map(|(n, cells, j)| (0..n).map(|k| (cells[k] + j[k], 0.0)).collect::<Vec<(f64, f64)>>()),
+            1 => near_uniform,
+        ]
+        .boxed()
     }
 }
 
@@ -317,14 +395,14 @@ fn strategy(_t: Tier) -> BoxedStrategy<Case> {
                 Just((0..8usize).collect::<Vec<_>>()).prop_shuffle(),
                 prop_oneof![2 => gen::logu(-14.0, -12.0), 1 => gen::logu(-12.0, -6.0)],
                 prop_oneof![12 => Just(0u8), 1 => 1u8..=3],
-                any::<bool>(),
+                (any::<bool>(), prop_oneof![4 => Just(None), 1 => (0usize..16, gen::fl(-10.0, -4.0)).prop_map(Some)]),
             )
         })
-        .prop_map(|(complex, kind, xs, vals, dvals, sampled, perm8, tol, mismatch, do_perm)| {
+        .prop_map(|(complex, kind, xs, vals, dvals, sampled, perm8, tol, mismatch, (do_perm, newton))| {
             let n = xs.len();
             // restrict the shuffled 0..8 to a permutation of 0..n (stable order of the surviving entries)
             let perm: Vec<usize> = if do_perm { perm8.into_iter().filter(|&i| i < n).collect() } else { (0..n).collect() };
-            Case { complex, kind, xs, vals, dvals, sampled, perm, tol, mismatch }
+            Case { complex, kind, xs, vals, dvals, sampled, perm, tol, mismatch, newton: if sampled { newton } else { None } }
         })
         .boxed()
 }
@@ -332,11 +410,11 @@ fn strategy(_t: Tier) -> BoxedStrategy<Case> {
 pub fn run(opts: &Opts) -> i32 {
     let mut spec = Spec::new("C15", strategy, run_case);
     // the crate's own examples: values of x^2 at three points, and Hermite of e^x data
-    spec.enumerated.push(Case { complex: false, kind: 0, xs: vec![(-1.0, 0.0), (0.0, 0.0), (1.0, 0.0)], vals: vec![(1.0, 0.0), (0.0, 0.0), (1.0, 0.0)], dvals: vec![(0.0, 0.0); 3], sampled: false, perm: vec![2, 0, 1], tol: 1e-13, mismatch: 0 });
-    spec.enumerated.push(Case { complex: false, kind: 1, xs: vec![(-1.0, 0.0), (0.5, 0.0), (1.25, 0.0)], vals: vec![(1.0, 0.0), (-2.0, 0.0), (0.5, 0.0), (0.25, 0.0)], dvals: vec![(1.0, 0.0), (1.0, 0.0), (-1.0, 0.0)], sampled: true, perm: vec![1, 2, 0], tol: 1e-13, mismatch: 0 });
+    spec.enumerated.push(Case { complex: false, kind: 0, xs: vec![(-1.0, 0.0), (0.0, 0.0), (1.0, 0.0)], vals: vec![(1.0, 0.0), (0.0, 0.0), (1.0, 0.0)], dvals: vec![(0.0, 0.0); 3], sampled: false, perm: vec![2, 0, 1], tol: 1e-13, mismatch: 0, newton: None });
+    spec.enumerated.push(Case { complex: false, kind: 1, xs: vec![(-1.0, 0.0), (0.5, 0.0), (1.25, 0.0)], vals: vec![(1.0, 0.0), (-2.0, 0.0), (0.5, 0.0), (0.25, 0.0)], dvals: vec![(1.0, 0.0), (1.0, 0.0), (-1.0, 0.0)], sampled: true, perm: vec![1, 2, 0], tol: 1e-13, mismatch: 0, newton: None });
     spec.cases = opts.tier.pick(300_000, 6_000_000);
     spec.essential = vec![("lagrange", 0.3), ("hermite", 0.3), ("complex", 0.3), ("permuted", 0.2), ("sampled", 0.3), ("mismatch", 0.05), ("nodes8", 0.05), ("accuracy-class", 0.4)];
-    spec.rule = "generated: 1-8 nodes by grid construction (separation >= 0.2, in [-2,2] or the disc of radius 2), real and complex; data arbitrary in [-2,2] or sampled from a random polynomial within the degree bound (n-1 Lagrange, 2n-1 Hermite); a random permutation of the listing order; zeroing tolerance 10^[-14,-6]; mismatched slice lengths. Oracle: order() within the degree bound; node residuals |p(x_i)-y_i|, |p'(x_i)-y'_i| <= 2 tol sum|x_i|^k(k+1) + eps G(n) S, S = max_j sum_k |c_k||x_j|^k(k+1) (G = 64*4^n Lagrange, 64*10^n Hermite); sampled data: coefficients equal the sampled polynomial within 2|V^-1|(residual + 8 n eps S) + tol with the (confluent) Vandermonde inverse computed in the harness; permuted listing satisfies the same inequality; mismatched lengths => Err. Non-trivial = >= 3 nodes and (complex or Hermite or permuted). Distinct = distinct case JSON.".into();
+    spec.rule = "generated: 1-8 nodes by grid construction (separation >= 0.2, in [-2,2] or the disc of radius 2; a ninth of the real designs a monotonically listed grid of spacing 0.45/0.5 with gap irregularities 10^[-13,-5]), real and complex; data arbitrary in [-2,2] or sampled from a random polynomial within the degree bound (n-1 Lagrange, 2n-1 Hermite; a fifth of the sampled cases given in Newton form over the listed nodes with one coefficient of order >= 2 scaled by 10^[-10,-4]: a small genuine higher divided difference); a random permutation of the listing order; zeroing tolerance 10^[-14,-6]; mismatched slice lengths. Oracle: order() within the degree bound; node residuals |p(x_i)-y_i|, |p'(x_i)-y'_i| <= 2 tol sum_{k in Z}|x_i|^k(k+1) + eps G(n) S (Z = the coefficients returned as exact zeros - the only ones the final zeroing pass can have touched - unless a divided difference of the listed data is within 32 tol of zero (lagrange: an intermediate may have lost its leading coefficient) or the top Newton coefficient is below 4e-10 (hermite's accumulator), in which case Z = all k), S = max_j sum_k |c_k||x_j|^k(k+1) (G = 64*4^n Lagrange, 64*10^n Hermite); sampled data: coefficients equal the sampled polynomial within 2|V^-1|(residual + 8 n eps S) + tol with the (confluent) Vandermonde inverse computed in the harness; permuted listing satisfies the same inequality; mismatched lengths => Err. Non-trivial = >= 3 nodes and (complex or Hermite or permuted). Distinct = distinct case JSON.".into();
     spec.max_shrink_iters = 3000;
     run_spec(spec, opts)
 }
